@@ -310,21 +310,25 @@ def reference_digest(tag, width, mode, transformer, mlw):
     return _REF[key]
 
 
-def run_case(case):
-    """case: {"w": [...], "bs": n, "mode": {sparse, tight, nolog}, "transformer": bool, "mlw": int|None, "route": "engine"|"page"}"""
+def run_case(case, eng=None, images=None):
+    """case: {"w": [...], "bs": n, "mode": {sparse, tight, nolog}, "transformer": bool, "mlw": int|None, "route": "engine"|"page"}
+    eng: a long-lived StubEngine that already served earlier calls (run_session); default: a fresh engine
+    images: the list object to hand in (run_session: a list that may have been handed to an engine before)"""
     w, bs, mode = case["w"], case["bs"], case["mode"]
     transformer, mlw = bool(case.get("transformer")), case.get("mlw")
-    tr = {"w": list(w), "bs": bs, "mode": dict(mode), "outcome": "ok", "batches": [], "res": [], "alias": []}
-    uniq = [make_image(i + 1, wi) for i, wi in enumerate(w)]
+    tr = {"kind": "lb", "w": list(w), "bs": bs, "mode": dict(mode), "outcome": "ok", "batches": [], "res": [], "alias": []}
     # case["alias"][j] = index into w of the object standing at input position j (the same ndarray object may occur at several
     # positions of the list handed to process_lines); default: every position holds its own object
     al = case.get("alias") or list(range(len(w)))
-    images = [uniq[a] for a in al]
-    eng = None
+    if images is None or case.get("alias"):
+        uniq = [make_image(i + 1, wi) for i, wi in enumerate(w)]
+        images = [uniq[a] for a in al]
     old = signal.signal(signal.SIGALRM, _alarm)
     signal.alarm(CASE_TIMEOUT)
     try:
-        eng = StubEngine(_config_path(mlw), bs, "transformer" if transformer else "ctc")
+        if eng is None:
+            eng = StubEngine(_config_path(mlw), bs, "transformer" if transformer else "ctc")
+        eng.seen = []
         with contextlib.redirect_stdout(io.StringIO()):
             texts, logits, coords = _call(eng, images, mode, case.get("route", "engine"))
         if not (len(texts) == len(logits) == len(coords) == len(al)):
@@ -358,3 +362,193 @@ def run_case(case):
                     kept.append(dict(b, ids=ids, rows=[r for r in b["rows"] if r["tag"] in ids][:len(ids)]))
             tr["batches"] = kept
     return tr
+
+
+# ------------------------------------------------------------------------------------------------ history (long-lived engines)
+# The statement makes the result at a position a function of the image at that position (and of the engine asked): nothing a
+# caller did before - earlier calls on the same engine object, calls on other engine objects of the same process, a call that
+# failed half-way, the same list object handed in again - may show in it.  A session is a sequence of process_lines calls on a
+# few long-lived engine objects, executed in ONE process; every call in scope yields one trace, judged by LineBatcher_Trace
+# exactly like a call on a fresh engine.  Two engine types:
+#   "lb"  the provenance StubEngine above (BaseEngineLineOCR.process_lines + stub run_ocr): trace kind "lb"
+#   "pt"  the real PytorchEngineLineOCR (its constructor, run_ocr and greedy CTC decoding into the engine's own characters)
+#         around a TorchScript stub network loaded from the checkpoint file named in the engine's json: trace kind "pt"
+ABASE = 0x4E00        # alphabet a = the characters chr(ABASE + 2048 * a + k), k = 0 .. nsym-1 (LineBatcher_Trace!PtSym)
+ASTRIDE = 2048
+BADSYM = 99999        # a returned character that belongs to none of the alphabets (or a transcription that is not a str)
+PT_MUL_TAG = 577      # LineBatcher_Trace!PtLab: class of a frame = (577 * image tag + 37 * ((last own column in the frame - 1) div 8)) mod nsym
+PT_MUL_BLK = 37
+PT_BLK = 8            # two frames per block: every symbol is emitted by a run of equal frames (CTC collapse is exercised)
+
+
+def alphabet(a, nsym):
+    return [chr(ABASE + ASTRIDE * a + k) for k in range(nsym)]
+
+
+def make_image_pt(tag, width):
+    """as make_image, but the tag has 16 bits (low byte in pixel row 0, high byte in pixel row 1): lists of more than 255 lines"""
+    img = make_image(tag % 256, width)
+    img[1, :, 0] = tag // 256
+    return img
+
+
+def _pt_network(nsym):
+    class PtNet(torch.nn.Module):
+        """frame f is a function of the pixel columns 4f .. 4f+3 of its own row (bounded horizontal neighbourhood): blank (last
+        class) where they are all padding, else a class computed from the image tag and the last own column visible in the frame"""
+
+        def __init__(self, nsym: int):
+            super().__init__()
+            self.nsym = nsym
+
+        def forward(self, x):                                    # N x 3 x H x W, values 0..1; images of make_image_pt
+            v = torch.round(x[:, :, 0, :] * 255.0).long()
+            tag = v[:, 0] + 256 * torch.round(x[:, 0, 1, :] * 255.0).long()
+            col = v[:, 1] + 256 * v[:, 2]                        # own column number (>= 1), 0 = padding
+            n = tag.shape[0]
+            f = tag.shape[1] // 4
+            tag = tag[:, :4 * f].reshape(n, f, 4).max(dim=2)[0]
+            col = col[:, :4 * f].reshape(n, f, 4).max(dim=2)[0]
+            blk = torch.div(torch.clamp(col - 1, min=0), 8, rounding_mode="floor")
+            lab = (tag * 577 + blk * 37) % self.nsym
+            cls = torch.where(col == 0, torch.full_like(lab, self.nsym), lab)
+            c = self.nsym + 1
+            logits = torch.nn.functional.one_hot(cls, c).float() * 12.0          # unique maximum: no arg-max ties
+            logits = logits + torch.nn.functional.one_hot((cls + 1) % c, c).float() * 3.0
+            return logits.permute(0, 2, 1)                       # N x C x T
+
+    return PtNet(nsym)
+
+
+def _pt_engine(wd, k, spec):
+    """the real PytorchEngineLineOCR, built by its public constructor from a json definition + an exported (TorchScript) model"""
+    from pero_ocr.ocr_engine.pytorch_ocr_engine import PytorchEngineLineOCR
+    ck = os.path.join(wd, "pt_%d.pt" % k)
+    model = torch.jit.script(_pt_network(spec["nsym"]))
+    model.save(ck)
+    model.save(ck + ".cpu")        # the engine loads "<checkpoint>.cpu" on a cpu device
+    js = os.path.join(wd, "pt_%d.json" % k)
+    with open(js, "w", encoding="utf8") as fh:
+        json.dump({"line_px_height": H, "line_vertical_scale": 1, "checkpoint": os.path.basename(ck),
+                   "characters": alphabet(spec["alpha"], spec["nsym"]), "net_name": "stub"}, fh)
+    return PytorchEngineLineOCR(js, torch.device("cpu"), batch_size=spec["bs"])
+
+
+def project_pt(text, lg, coords):
+    """one (transcription, logits, logit_coords) triple of a "pt" engine -> integers: the characters as ABASE-relative codes, the
+    window, and the arg-max class of every returned frame inside the window"""
+    res = {"cs": 0, "lo": 0, "hi": 0, "lk": 0, "frames": 0, "tlen": 0, "txt": [], "a0": 0, "amax": []}
+    if isinstance(text, str):
+        res["tlen"] = len(text)
+        res["txt"] = [(ord(ch) - ABASE) if ABASE + ASTRIDE <= ord(ch) < ABASE + 8 * ASTRIDE else BADSYM for ch in text]
+    else:
+        res["tlen"] = BAD
+    lo, hi = 0, 0
+    if coords is None:
+        res["cs"] = 0
+    elif list(coords) == [None, None]:
+        res["cs"] = 1
+    else:
+        res["cs"] = 2
+        lo, hi = int(coords[0]), int(coords[1])
+        res["lo"], res["hi"] = lo, hi
+    arr = _dense(lg)
+    if arr is not None and arr.ndim == 2:
+        res["lk"] = 1
+        res["frames"] = int(arr.shape[0])
+        if res["cs"] == 2:
+            a, b = max(lo, 0), max(min(hi, arr.shape[0]), max(lo, 0))
+        else:
+            a, b = 0, arr.shape[0]
+        res["a0"] = a
+        res["amax"] = [int(v) for v in arr[a:b].argmax(axis=1)] if b > a and arr.shape[1] > 0 else []
+    elif arr is not None:
+        res["lk"] = 2
+    return res
+
+
+def _failing_call(eng, kw):
+    """a call outside the scope (the narrowest crop has the wrong height: numpy refuses it when its batch - the last one - is
+    assembled, or a stricter engine refuses the list up front).  Whatever the engine does with it, the next call must not notice."""
+    bad = np.full((H + 1, 5, 3), 7, dtype=np.uint8)
+    try:
+        with contextlib.redirect_stdout(io.StringIO()):
+            eng.process_lines([make_image(1, 481), make_image(2, 200), bad, make_image(3, 190)], **kw)
+        return "ok"
+    except CaseTimeout:
+        raise
+    except Exception as ex:
+        return "exception:" + type(ex).__name__
+
+
+def _pt_call(eng, images, spec, call, w):
+    mode = call["mode"]
+    kw = dict(sparse_logits=bool(mode["sparse"]), tight_crop_logits=bool(mode["tight"]), no_logits=bool(mode["nolog"]))
+    tr = {"kind": "pt", "w": list(w), "bs": spec["bs"], "mode": dict(mode), "outcome": "ok", "batches": [], "res": [], "alias": [],
+          "alpha": spec["alpha"], "nsym": spec["nsym"]}
+    try:
+        with contextlib.redirect_stdout(io.StringIO()):
+            texts, logits, coords = eng.process_lines(images, **kw)
+        if not (len(texts) == len(logits) == len(coords) == len(w)):
+            tr["outcome"] = "length"
+        else:
+            tr["res"] = [project_pt(t, l, c) for t, l, c in zip(texts, logits, coords)]
+    except CaseTimeout:
+        tr["outcome"] = "timeout"
+    except Exception as ex:          # part of the observation
+        tr["outcome"] = "exception:" + type(ex).__name__
+    return tr
+
+
+def run_session(sess):
+    """sess: {"engines": [{"type": "lb"|"pt", "bs": n, ("alpha": a, "nsym": k)}], "calls": [{"e": engine index, "w": [...],
+    "mode": {...}, ("fail": 1: preceded by a failing call on the same engine)}]}.  Engines are created on first use and live to
+    the end of the session; a list of crops asked for twice (same widths) is the same list object with the same arrays.
+    Returns one trace per call, in order."""
+    import tempfile
+    import warnings
+    warnings.filterwarnings("ignore", category=FutureWarning)
+    torch.set_num_threads(1)
+    wd = tempfile.mkdtemp(prefix="sess_", dir=_ENV["cfg_dir"])
+    engines, lists, traces = {}, {}, []
+    for call in sess["calls"]:
+        spec = sess["engines"][call["e"]]
+        w = call["w"]
+        mk = make_image if spec["type"] == "lb" else make_image_pt
+        images = lists.setdefault((spec["type"], tuple(w)), [mk(i + 1, wi) for i, wi in enumerate(w)])
+        kw = dict(sparse_logits=bool(call["mode"]["sparse"]), tight_crop_logits=bool(call["mode"]["tight"]),
+                  no_logits=bool(call["mode"]["nolog"]))
+        if spec["type"] == "lb":
+            if call["e"] not in engines:
+                engines[call["e"]] = StubEngine(_config_path(None), spec["bs"], "ctc")
+            eng = engines[call["e"]]
+            if call.get("fail"):
+                old = signal.signal(signal.SIGALRM, _alarm)
+                signal.alarm(CASE_TIMEOUT)
+                try:
+                    _failing_call(eng, kw)
+                except CaseTimeout:
+                    pass
+                finally:
+                    signal.alarm(0)
+                    signal.signal(signal.SIGALRM, old)
+            tr = run_case({"w": w, "bs": spec["bs"], "mode": call["mode"], "transformer": False, "mlw": None, "route": "engine"},
+                          eng=eng, images=images)
+        else:
+            old = signal.signal(signal.SIGALRM, _alarm)
+            signal.alarm(CASE_TIMEOUT)
+            try:
+                if call["e"] not in engines:
+                    engines[call["e"]] = _pt_engine(wd, call["e"], spec)
+                eng = engines[call["e"]]
+                if call.get("fail"):
+                    _failing_call(eng, kw)
+                tr = _pt_call(eng, images, spec, call, w)
+            except CaseTimeout:
+                tr = {"kind": "pt", "w": list(w), "bs": spec["bs"], "mode": dict(call["mode"]), "outcome": "timeout", "batches": [],
+                      "res": [], "alias": [], "alpha": spec["alpha"], "nsym": spec["nsym"]}
+            finally:
+                signal.alarm(0)
+                signal.signal(signal.SIGALRM, old)
+        traces.append(tr)
+    return traces
